@@ -10,52 +10,161 @@ namespace Mctp
 
 /-! ### the library's CRC is the specification's -/
 
+theorem lfsr_eq_step (r : B) (bit : Bool) :
+    Spec.lfsr r bit = step (r ^^^ (if bit then 0x80#8 else 0#8)) := by
+  cases bit
+  · revert r; apply forall_byte; decide +kernel
+  · revert r; apply forall_byte; decide +kernel
+
+theorem bitsOf_fold_zero : ∀ b : B, (Spec.bitsOf b).foldl Spec.lfsr 0#8 = step8 b := by
+  apply forall_byte; decide +kernel
+
+theorem lfsr_lin (r s : B) (bit : Bool) : Spec.lfsr (r ^^^ s) bit = step r ^^^ Spec.lfsr s bit := by
+  rw [lfsr_eq_step, lfsr_eq_step, BitVec.xor_assoc, step_lin]
+
+theorem foldl_lfsr_lin (bits : List Bool) : ∀ (r s : B),
+    bits.foldl Spec.lfsr (r ^^^ s) = (bits.foldl (fun c _ => step c) r) ^^^ bits.foldl Spec.lfsr s := by
+  induction bits with
+  | nil => intro r s; rfl
+  | cons b bs ih => intro r s; simp only [List.foldl_cons]; rw [lfsr_lin, ih]
+
+theorem bitsOf_fold (c b : B) : (Spec.bitsOf b).foldl Spec.lfsr c = step8 (c ^^^ b) := by
+  have h := foldl_lfsr_lin (Spec.bitsOf b) c 0#8
+  rw [BitVec.xor_zero] at h
+  rw [h, bitsOf_fold_zero, step8_lin]
+  rfl
+
+theorem crcFrom_eq_spec (xs : Bytes) : ∀ c : B, crcFrom c xs = (xs.flatMap Spec.bitsOf).foldl Spec.lfsr c := by
+  induction xs with
+  | nil => intro c; rfl
+  | cons x xs ih =>
+    intro c
+    rw [List.flatMap_cons, List.foldl_append, bitsOf_fold, crcFrom_cons, ih]; rfl
+
 theorem crc8_eq_spec (xs : Bytes) : crc8 xs = Spec.crc xs := by
-  sorry
+  unfold crc8 Spec.crc Spec.crcBits; exact crcFrom_eq_spec xs 0
 
 theorem pecOk_eq (p : Bytes) (h : p ≠ []) :
     Spec.pecOk p = (byteAt p (p.length - 1) == calcPec p) := by
-  sorry
+  unfold Spec.pecOk calcPec byteAt
+  rw [crc8_eq_spec, List.dropLast_eq_take]
+  rw [List.getLast?_eq_getElem?]
+  have : p.length - 1 < p.length := by
+    cases p with
+    | nil => exact absurd rfl h
+    | cons a as => simp
+  simp [List.getD_eq_getElem?_getD, List.getElem?_eq_getElem this]
 
 /-! ### closed forms of the getters the decoder uses -/
 
-theorem transportFromBufOk_eq (x0 x1 x2 x3 v : B) :
-    transportFromBufOk [x0, x1, x2, x3] v = ((x0 &&& 0xF0#8) == 0x00#8 && (x0 &&& 0x0F#8) == v) := by
-  sorry
+/-- unfold a header getter on a literal buffer down to bits of single bytes -/
+macro "getter_unfold" : tactic =>
+  `(tactic| simp only [Field.get, getMsb0, getLsb0, idxUp, idxDown, getLoop, getBit, posMsb0, posLsb0,
+      List.range', List.reverse_cons, List.reverse_nil, List.nil_append, List.cons_append,
+      TransportHdr.rsvd, TransportHdr.hdrVersion, TransportHdr.sourceEndpointId, BodyHdr.ic, BodyHdr.msgType,
+      CtrlHdr.rq, CtrlHdr.commandCode, SMBusHdr.commandCode, SMBusHdr.byteCount,
+      if_true, if_false, Bool.false_eq_true, Nat.reduceAdd, Nat.reduceSub, Nat.reduceDiv, Nat.reduceMod,
+      List.getD_cons_zero, List.getD_cons_succ, Nat.reduceMul, Nat.reducePow])
 
-theorem bodyFromBufOk_eq (x : B) :
-    bodyFromBufOk [x] = ((x &&& 0x80#8) == 0x00#8 && MsgType.ofByte (x &&& 0x7F#8) != .invalid) := by
-  sorry
+theorem rsvd_get (x0 x1 x2 x3 : B) : TransportHdr.rsvd.get [x0, x1, x2, x3] = ((x0 &&& 0xF0#8) >>> 4).toNat := by
+  getter_unfold
+  revert x0; apply forall_byte; decide +kernel
 
-theorem bodyMsgType_eq (p : Bytes) : bodyMsgType p = MsgType.ofByte (byteAt p 8 &&& 0x7F#8) := by
-  sorry
+theorem hdrVersion_get (x0 x1 x2 x3 : B) : TransportHdr.hdrVersion.get [x0, x1, x2, x3] = (x0 &&& 0x0F#8).toNat := by
+  getter_unfold
+  revert x0; apply forall_byte; decide +kernel
 
-theorem msgTypeOf_eq (p : Bytes) : Spec.msgTypeOf p = MsgType.ofByte (byteAt p 8 &&& 0x7F#8) := by
-  sorry
+theorem ic_get (x : B) : BodyHdr.ic.get [x] = if x.msb then 1 else 0 := by
+  getter_unfold
+  revert x; apply forall_byte; decide +kernel
+
+theorem msgType_get (x : B) : BodyHdr.msgType.get [x] = (x &&& 0x7F#8).toNat := by
+  getter_unfold
+  revert x; apply forall_byte; decide +kernel
 
 theorem ctrl_rq_get (x y : B) : CtrlHdr.rq.get [x, y] = if x.msb then 1 else 0 := by
-  sorry
+  getter_unfold
+  revert x; apply forall_byte; decide +kernel
+
+theorem ctrl_cmd_get' (x y : B) : CtrlHdr.commandCode.get [x, y] = y.toNat := by
+  getter_unfold
+  revert y; apply forall_byte; decide +kernel
 
 theorem ctrl_cmd_get (x y : B) : BitVec.ofNat 8 (CtrlHdr.commandCode.get [x, y]) = y := by
-  sorry
+  rw [ctrl_cmd_get']; simp
+
+theorem srcEid_get' (x0 x1 x2 x3 : B) : TransportHdr.sourceEndpointId.get [x0, x1, x2, x3] = x2.toNat := by
+  getter_unfold
+  revert x2; apply forall_byte; decide +kernel
 
 theorem srcEid_get (x0 x1 x2 x3 : B) :
     BitVec.ofNat 8 (TransportHdr.sourceEndpointId.get [x0, x1, x2, x3]) = x2 := by
-  sorry
+  rw [srcEid_get']; simp
 
 theorem smbus_cmd_get (a b c d : B) : SMBusHdr.commandCode.get [a, b, c, d] = b.toNat := by
-  sorry
+  getter_unfold
+  revert b; apply forall_byte; decide +kernel
 
 theorem smbus_count_get (a b c d : B) : SMBusHdr.byteCount.get [a, b, c, d] = c.toNat := by
-  sorry
+  getter_unfold
+  revert c; apply forall_byte; decide +kernel
+
+theorem transportFromBufOk_eq (x0 x1 x2 x3 v : B) :
+    transportFromBufOk [x0, x1, x2, x3] v = ((x0 &&& 0xF0#8) == 0x00#8 && (x0 &&& 0x0F#8) == v) := by
+  unfold transportFromBufOk
+  rw [rsvd_get, hdrVersion_get]
+  have h1 : ∀ x0 : B, (((x0 &&& 0xF0#8) >>> 4).toNat ≠ 0) = ((x0 &&& 0xF0#8) ≠ 0x00#8) := by
+    apply forall_byte; decide +kernel
+  simp only [h1, ne_eq, BitVec.toNat_inj]
+  by_cases ha : (x0 &&& 0xF0#8) = 0x00#8 <;> by_cases hb : (x0 &&& 0x0F#8) = v <;> simp [ha, hb]
+
+theorem bodyFromBufOk_eq (x : B) :
+    bodyFromBufOk [x] = ((x &&& 0x80#8) == 0x00#8 && MsgType.ofByte (x &&& 0x7F#8) != .invalid) := by
+  unfold bodyFromBufOk
+  rw [ic_get, msgType_get]
+  revert x; apply forall_byte; decide +kernel
+
+theorem bodyMsgType_eq (p : Bytes) : bodyMsgType p = MsgType.ofByte (byteAt p 8 &&& 0x7F#8) := by
+  unfold bodyMsgType
+  rw [msgType_get]; simp
+
+theorem msgTypeOf_eq (p : Bytes) : Spec.msgTypeOf p = MsgType.ofByte (byteAt p 8 &&& 0x7F#8) := by
+  unfold Spec.msgTypeOf Spec.typeBits MsgType.ofByte; rfl
 
 /-! ### normal forms -/
+
+theorem slice_4_8 (p : Bytes) (h : 8 ≤ p.length) :
+    slice p 4 8 = [byteAt p 4, byteAt p 5, byteAt p 6, byteAt p 7] := by
+  match p, h with
+  | _ :: _ :: _ :: _ :: _ :: _ :: _ :: _ :: _, _ => rfl
+
+theorem hdrOk_eq (p : Bytes) :
+    Spec.hdrOk p = (transportFromBufOk [byteAt p 4, byteAt p 5, byteAt p 6, byteAt p 7] 1#8 &&
+      bodyFromBufOk [byteAt p 8]) := by
+  rw [transportFromBufOk_eq, bodyFromBufOk_eq]
+  unfold Spec.hdrOk Spec.typeBits
+  generalize byteAt p 4 = a
+  generalize byteAt p 8 = b
+  have h1 : ∀ a : B, ((a &&& 0xF0#8) == 0x00#8 && (a &&& 0x0F#8) == 1#8) = (a == 0x01#8) := by
+    apply forall_byte; decide +kernel
+  have h2 : ∀ b : B, ((b &&& 0x80#8) == 0x00#8 && MsgType.ofByte (b &&& 0x7F#8) != .invalid) =
+      ((b &&& 0x80#8) == 0x00#8 && ((b &&& 0x7F#8) == 0x00#8 || (b &&& 0x7F#8) == 0x05#8 || (b &&& 0x7F#8) == 0x06#8 ||
+        (b &&& 0x7F#8) == 0x7E#8 || (b &&& 0x7F#8) == 0x7F#8)) := by
+    apply forall_byte; decide +kernel
+  rw [h1, h2, Bool.and_assoc]
 
 theorem getHeaders_eq (p : Bytes) :
     getHeaders p =
       if p.length < 10 then .err (.invalid, .unknown)
       else if Spec.hdrOk p then .ok () else .err (.invalid, .unknown) := by
-  sorry
+  unfold getHeaders
+  by_cases h : p.length < 10
+  · simp [h]
+  · rw [if_neg h, if_neg h, slice_4_8 p (by omega), hdrOk_eq]
+    cases transportFromBufOk [byteAt p 4, byteAt p 5, byteAt p 6, byteAt p 7] 1#8 <;>
+      cases bodyFromBufOk [byteAt p 8] <;> simp
+
+theorem ccOf_zero : ccOf 0x00#8 = .ok .success := by decide
 
 theorem ctrlSelect_eq (cp : Bytes) :
     ctrlSelect cp =
@@ -63,7 +172,16 @@ theorem ctrlSelect_eq (cp : Bytes) :
       else if cp.length < 4 then .err (.control, .ctl .len)
       else if byteAt cp 2 ≠ 0x00#8 then (ccOf (byteAt cp 2)).bind fun c => .err (.control, .ctl (.cc c))
       else (respDataLen (byteAt cp 1)).map fun n => (3, false, n) := by
-  sorry
+  unfold ctrlSelect
+  simp only [ctrl_rq_get, ctrl_cmd_get]
+  cases hm : (byteAt cp 0).msb
+  · simp only [Bool.false_eq_true, if_false]
+    by_cases h4 : cp.length < 4
+    · simp [h4]
+    · by_cases h2 : byteAt cp 2 = 0x00#8
+      · simp [h4, h2, ccOf_zero]
+      · simp [h4, h2]
+  · simp
 
 theorem decode_eq (p : Bytes) :
     decode p =
@@ -77,6 +195,21 @@ theorem decode_eq (p : Bytes) :
         | .spdm => vendorArm p (calcPec p) .spdm
         | .secured => vendorArm p (calcPec p) .secured
         | .invalid => .err (.invalid, .unknown) := by
-  sorry
+  unfold decode
+  rw [getHeaders_eq, bodyMsgType_eq, msgTypeOf_eq]
+  by_cases h : p.length < 10
+  · simp [h]
+  · cases hh : Spec.hdrOk p
+    · simp [h]
+    · simp only [h, if_false, Bool.not_true, Bool.false_eq_true]
+      cases MsgType.ofByte (byteAt p 8 &&& 0x7F#8) <;> rfl
+
+/-! ### byte access through `take` / `drop` -/
+
+theorem byteAt_take (p : Bytes) (n i : Nat) (h : i < n) : byteAt (p.take n) i = byteAt p i := by
+  simp [byteAt, List.getD_eq_getElem?_getD, h]
+
+theorem byteAt_drop (p : Bytes) (n i : Nat) : byteAt (p.drop n) i = byteAt p (n + i) := by
+  simp [byteAt, List.getD_eq_getElem?_getD]
 
 end Mctp
